@@ -102,6 +102,7 @@ def key_params(e):
 
 
 def run(ctx, rep):
+    pt.CTX = ctx
     ops = session_ops(ctx)
     # ------------------------------------------------------------ R09.a
     rep.rule('R09.a', 'every &Session operation passes, on every path to a successful return, the success edge of ensure_authenticated or of a permission rule keyed by the session user, and of the rule listed for it', floor=44, analysis='A2')
